@@ -167,7 +167,7 @@ pub fn run(opts: &Opts, rep: &Report) {
         _ => unreachable!(),
     };
     let budget = Budget::new(opts.budget_s);
-    let threads = std::thread::available_parallelism().map(|n| n.get()).unwrap_or(8);
+    let threads = crate::common::n_threads();
     let mk = |engine: &'static str, p: &'static str, ind: bool, no_cores: bool| McCfg { engine, persona: p, k: 4, check_constraints: false, individually: ind, simplify: false, disable_cores: no_cores };
     let mut bases: Vec<(&'static str, SysSpec, McCfg)> = vec![];
     for (i, (label, spec)) in base_systems().into_iter().enumerate() {
